@@ -239,8 +239,8 @@ def run(ctx):
     ujob = {"what": "user pair peptide", "text": pep, "args": [f"--userff={udat}", f"--usernames={unames}"], "truth": [], "strands": [],
             "ff": "USER"}
     for j in jobs:
-        m = re.search(r"ff=(\w+)", j["what"])
-        j["ff"] = m.group(1) if m else "PARSE"
+        m = next((re.match(r"--ff=(\w+)", a) for a in j["args"] if a.startswith("--ff=")), None)
+        j["ff"] = m.group(1).upper() if m else "PARSE"
     # a second user pair (same names file, other radii) run after the first one in the same process
     u2 = os.path.join(fd, "custom2.dat")
     with open(u2, "w") as f:
